@@ -264,3 +264,38 @@ def view_opb(n, shown, stored=None):
     if stored is None:
         stored = list(shown) + list(shown[:1])
     return ViewOPB(n, shown, stored)
+
+
+def table_class(base):
+    """A CNF class of the user's that keeps the clauses it is given in a table of its own: add_clause is overridden, and
+    so are the accessors that present the clauses.  A family built into such a class must deliver all its clauses
+    through these methods."""
+
+    class Table(base):
+        def __init__(self, *args, **kw):
+            self._own_rows = []
+            base.__init__(self, *args, **kw)
+
+        def add_clause(self, clause, check=True):
+            clause = list(clause)
+            if check:
+                self._check_and_update(clause)
+            self._own_rows.append(clause)
+
+        def number_of_clauses(self):
+            return len(self._own_rows)
+
+        def clauses(self):
+            return iter([list(c) for c in self._own_rows])
+
+        def __len__(self):
+            return len(self._own_rows)
+
+        def __iter__(self):
+            return iter([list(c) for c in self._own_rows])
+
+        def __getitem__(self, idx):
+            return list(self._own_rows[idx])
+
+    Table.__name__ = "Table" + base.__name__
+    return Table
